@@ -83,7 +83,12 @@ func build(extraFile, extraCat string) *model {
 	st(m, c, "union", "CUnusedU", fld(1, "v", i32))
 	st(m, c, "exception", "CUnusedX", fld(1, "v", str))
 	cOtherOnly := st(m, c, "struct", "COtherOnly", fld(1, "v", i32))
-	cBase := &idl.Service{Name: "CBase", Functions: []*idl.Function{
+	// a base of the base, in the same included file
+	cRootRes := st(m, c, "struct", "CRootRes", fld(1, "v", i32))
+	cRoot := &idl.Service{Name: "CRoot", Functions: []*idl.Function{{Name: "root", Ret: idl.StructT(cRootRes)}}}
+	c.Add(cRoot)
+	m.svcs["CRoot"] = cRoot
+	cBase := &idl.Service{Name: "CBase", Extends: cRoot, Functions: []*idl.Function{
 		{Name: "base", Ret: idl.StructT(cRes), Args: []*idl.Field{fld(1, "a", idl.StructT(cArg))}, Throws: []*idl.Field{fld(1, "e", idl.StructT(cErr))}},
 		{Name: "ping"}}}
 	c.Add(cBase)
